@@ -1,7 +1,9 @@
 """C14 - concurrent compilation and matching behave as if run one at a time (deterministic scheduler)."""
 from __future__ import annotations
 
+import json
 import os
+import subprocess
 import sys
 import time
 import warnings
@@ -11,7 +13,7 @@ import soupsieve as sv
 from engine import choose, common, htmldoc, sched, trees
 
 ID = 'C14'
-BUDGET = {'quick': 70, 'thorough': 1200}
+BUDGET = {'quick': 80, 'thorough': 1200}
 META = {
     'rule': 'real threads under a deterministic scheduler (engine/sched.py): every line event (thorough: every opcode '
             'in css_parser.py) inside soupsieve frames is a yield point; exactly one thread runs at a time, so a run is '
@@ -23,7 +25,9 @@ META = {
             'documents, including operations at the interpreter\'s limits (a 4400-digit An+B coefficient that must be a '
             'syntax error, range matching on 4400-digit years), for which all single pre-emptions are enumerated too, and '
             'operations that are guaranteed to miss soupsieve\'s memos (a never-seen attribute name) while the memo of '
-            'lower-cased names is filled to capacity by a warm-up, enumerated at opcode granularity inside util.py. Oracle: every operation\'s outcome (selector structure / selected positions / exception type) '
+            'lower-cased names is filled to capacity by a warm-up, enumerated at opcode granularity inside util.py; (iii) '
+            'first use in a process: for 20 pseudo-classes, single pre-emptions of two selects run as the first thing a fresh '
+            'interpreter does with the library (fuzz/c14_fresh.py), compared with what each gives alone afterwards. Oracle: every operation\'s outcome (selector structure / selected positions / exception type) '
             'equals its outcome when run alone on a purged cache; afterwards every pattern\'s cached entry equals a '
             'fresh parse (or the same error), the cache is within its bound and the interpreter-wide int-digit and recursion limits are what they were. Non-trivial: >= 1 context switch happened at a yield point '
             'inside soupsieve while another thread still had soupsieve work to do; distinct by (operations, schedule)',
@@ -226,11 +230,16 @@ def run_case(case, opcode=False):
 
 
 def replay(case):
+    if 'fresh' in case:
+        fails, _ = check_fresh(case['fresh'])
+        return fails[0] if fails else None
     fails, _ = run_case(case, opcode=case.get('opcode', False))
     return fails[0] if fails else None
 
 
 def shrink(case, still, cap):
+    if 'fresh' in case:
+        return case
     t_end = time.time() + cap
     # drop operations, then threads
     changed = True
@@ -358,6 +367,64 @@ def run_single_preemptions(col, ctx, pool, opcode):
     col.extra['pairs'] = len(pairs) if k == 0 else 0
 
 
+FRESH_PSEUDOS = (':checked', ':default', ':indeterminate', ':disabled', ':enabled', ':required', ':optional', ':read-only',
+                 ':read-write', ':in-range', ':out-of-range', ':placeholder-shown', ':any-link', ':link', ':dir(ltr)',
+                 ':lang(en)', ':nth-child(2n+1 of input)', ':defined', ':root', ':empty')
+
+
+def fresh_process(job):
+    env = dict(os.environ, VERIF_REPO=common.REPO, PYTHONDONTWRITEBYTECODE='1', PYTHONHASHSEED='0')
+    worker = os.path.join(common.VERIF, 'fuzz', 'c14_fresh.py')
+    p = subprocess.run([sys.executable, worker], input=json.dumps(job), env=env, capture_output=True, text=True, timeout=300)
+    if p.returncode != 0:
+        raise common.HarnessError(f'C14 fresh-process worker failed: {p.stderr[-400:]}')
+    return json.loads(p.stdout)
+
+
+def check_fresh(job):
+    out = fresh_process(job)
+    fails = []
+    for tid, (got, alone) in enumerate(zip(out['got'], out['alone'])):
+        text = job['a'] if tid == 0 else job['b']
+        same = got[0] == alone[0] and (got[1] == alone[1] if got[0] == 'ok' else got[1] == alone[1])
+        if not same:
+            fails.append(('first-use-in-process-differs-from-alone',
+                          f'fresh interpreter, thread A select({job["a"]!r}) pre-empted after {job["point"]} yield points by thread B '
+                          f'select({job["b"]!r}): thread {"AB"[tid]} {text!r} gives {got[:2]}, alone it gives {alone}'))
+    return fails, out
+
+
+def run_fresh_first_use(col, ctx, per_pseudo):
+    """The first use of a construct in a process is a state of its own (lazily built tables, cold memos): every schedule
+    here runs as the first thing a fresh interpreter does with the library."""
+    k, nsh = ctx['shard'], ctx['nshards']
+    idx = 0
+    for ps in FRESH_PSEUDOS:
+        a, b = 'input' + ps, '*' + ps
+        idx += 1
+        if idx % nsh != k:
+            continue
+        if time.time() > ctx['t_end']:
+            col.extra['budget_exhausted'] = 1
+            return
+        n = fresh_process({'a': a, 'b': b, 'point': None})['points']
+        # the first half of A's yield points covers its compilation (where first-use work happens); spread evenly
+        pts = sorted({max(1, int(n * 0.6 * (j + 0.5) / per_pseudo)) for j in range(per_pseudo)})
+        for point in pts:
+            if time.time() > ctx['t_end']:
+                col.extra['budget_exhausted'] = 1
+                return
+            job = {'a': a, 'b': b, 'point': point}
+            fails, out = check_fresh(job)
+            col.count()
+            col.classify('fresh-process-first-use')
+            if out['switches'] >= 1:
+                col.nontrivial_case(['fresh', a, b, point], {'fresh_interpreter': True, 'threads': [a, b], 'preempt_A_after_yield_points': point,
+                                                             'yield_points_of_A': n} if point == pts[0] else None)
+            for bkt, d in fails[:2]:
+                col.fail(bkt, {'fresh': job}, d)
+
+
 def run_double_preemptions(col, ctx):
     """Thorough: every (i, j) double pre-emption for two pairs of special-pseudo-class compiles."""
     k, nsh = ctx['shard'], ctx['nshards']
@@ -432,7 +499,7 @@ def shard(ctx):
     tier = ctx['tier']
     opcode = tier == 'thorough'
     pool = POOL_QUICK if tier == 'quick' else POOL_QUICK + POOL_MORE
-    t_mixed_end = time.time() + ctx['budget_s'] * 0.4
+    t_mixed_end = time.time() + ctx['budget_s'] * 0.33
 
     def body(ch):
         case = gen_mixed(ch, POOL_QUICK + POOL_MORE)
@@ -449,6 +516,7 @@ def shard(ctx):
     ex = common.hyp_run(choose.choices(512), body, 3000 if tier == 'quick' else 300000, ctx['hseed'],
                         deadline_ts=t_mixed_end)
     col.extra['mixed_budget_exhausted'] = int(ex)
+    run_fresh_first_use(col, dict(ctx, t_end=time.time() + ctx['budget_s'] * 0.2), 8 if tier == 'quick' else 60)
     if tier == 'thorough':
         ctx2 = dict(ctx, t_end=time.time() + ctx['budget_s'] * 0.25)
         run_double_preemptions(col, ctx2)
